@@ -390,17 +390,17 @@ def test_symmetry_modes(case, note):
 
 def subchecks(tier):
     q = tier == "quick"
-    nmax = 24 if q else 40
+    nmax = 24 if q else 64
     hs = [1.0, 0.5, 0.1, 0.3, 1 / 3, 2.0]
     return [
         Sub("weights", None, test_weights, 0,
             generic=weight_cells(nmax, hs)),
         Sub("axis_exchange", grid_case(), test_axis_exchange,
-            150 if q else 2000, shards=4),
+            150 if q else 12000, shards=8),
         Sub("componentwise", grid_case(with_tensor=True), test_componentwise,
-            100 if q else 1500, shards=4),
+            100 if q else 6000, shards=8),
         Sub("poly_exact", poly_case(), test_poly_exact,
-            200 if q else 3000, shards=4),
+            200 if q else 16000, shards=8),
         Sub("wrap_mirror", grid_case(), test_symmetry_modes,
-            100 if q else 1500, shards=4),
+            100 if q else 8000, shards=8),
     ]
